@@ -6,7 +6,6 @@ import (
 	"io"
 	"log"
 
-	"github.com/dim13/cobs"
 	"github.com/simpleiot/simpleiot/test"
 )
 
@@ -100,69 +99,71 @@ func cobsDecodeInplace(b []byte) (int, error) {
 // bytes and must end with a NULL byte. This Read blocks until we
 // get an entire packet or an error. b must be large enough to hold the entire packet.
 func (cw *CobsWrapper) Read(b []byte) (int, error) {
-	// we read data until we see a zero or hit the size of the b buffer
-	// current location in read buffer
-	var cur int
-
-	// first, process any leftover bytes looking for packets
-	if cw.readLeftover.Len() > 0 {
-		foundStart := false
-
+	for {
+		// look for a complete packet in the bytes we have so far
 		lb := cw.readLeftover.Bytes()
-		for i := 0; i < len(lb); i++ {
-			if !foundStart {
-				if lb[i] == 0 {
-					continue
-				}
-				foundStart = true
-			}
-			if lb[i] == 0 {
-				// found end of packet, copy to read buffer and process
-				_, _ = cw.readLeftover.Read(b[0:i])
-				return cobsDecodeInplace(b[0:i])
-			}
+
+		start := 0
+		for start < len(lb) && lb[start] == 0 {
+			start++
 		}
 
-		// write leftover bytes to beginning of buffer
-		bBuf := bytes.NewBuffer(b)
-		c, _ := bBuf.Write(cw.readLeftover.Bytes())
+		end := bytes.IndexByte(lb[start:], 0)
 
-		cur += c
-	}
+		if end >= 0 {
+			// found end of packet, copy to read buffer (including the
+			// trailing NULL) and decode in place. Bytes after the packet
+			// are kept for the next call.
+			end += start + 1
+			if end-start > len(b) {
+				cw.readLeftover.Next(end)
+				return 0, ErrCobsTooMuchData
+			}
+			c := copy(b, lb[start:end])
+			cw.readLeftover.Next(end)
+			return cobsDecodeInplace(b[0:c])
+		}
 
-	foundStart := false
+		// no complete packet yet, leading NULLs are not needed any more
+		cw.readLeftover.Next(start)
 
-	for {
-		c, err := cw.dev.Read(b[cur:])
+		if cw.readLeftover.Len() >= len(b) || cw.readLeftover.Len() > cw.maxMessageLength {
+			cw.readLeftover.Reset()
+			return 0, ErrCobsTooMuchData
+		}
+
+		c, err := cw.dev.Read(b)
 		if err != nil {
 			return 0, err
 		}
 
-		if c > 0 {
-			// look for zero in buffer
-			for i := 0; i < c; i++ {
-				if !foundStart {
-					if b[cur+i] == 0 {
-						continue
-					}
-					foundStart = true
-				}
-				if b[cur+i] == 0 {
-					// found end of packet, decode in place
-					// first save off extra bytes
-					cw.readLeftover.Write(b[cur+i+1 : cur+c])
+		cw.readLeftover.Write(b[0:c])
+	}
+}
 
-					return cobsDecodeInplace(b[0 : cur+i+1])
-				}
-			}
+// cobsEncode encodes a slice of bytes to a null-terminated COBS frame
+func cobsEncode(p []byte) []byte {
+	ret := make([]byte, 1, len(p)+len(p)/254+3)
+
+	// index of the code byte of the block we are filling
+	code := 0
+	ret[code] = 1
+
+	for _, v := range p {
+		if v != 0 {
+			ret = append(ret, v)
+			ret[code]++
 		}
 
-		cur += c
-
-		if cur >= len(b) || cur > cw.maxMessageLength {
-			return 0, ErrCobsTooMuchData
+		if v == 0 || ret[code] == 0xff {
+			// block is finished: a zero is implied after it unless
+			// it is a full block. Start the next block.
+			code = len(ret)
+			ret = append(ret, 1)
 		}
 	}
+
+	return append(ret, 0)
 }
 
 func (cw *CobsWrapper) Write(b []byte) (int, error) {
@@ -170,7 +171,7 @@ func (cw *CobsWrapper) Write(b []byte) (int, error) {
 		log.Println("SER TX RAW:", test.HexDump(b))
 	}
 
-	w := append([]byte{0}, cobs.Encode(b)...)
+	w := append([]byte{0}, cobsEncode(b)...)
 
 	if cw.debug >= 9 {
 		log.Println("SER TX COBS:", test.HexDump(w))
